@@ -379,8 +379,10 @@ class Cfg:
         return Cfg(**d)
 
 
-def make_user(cfg, engine_id):
-    """Build the gufo.snmp User for cfg (keys in the configured key type)."""
+def make_user(cfg, engine_id, key_cache=None):
+    """Build the gufo.snmp User for cfg (keys in the configured key type).
+    key_cache: dict shared by several calls - pass-phrase key *objects* are then reused between different User objects
+    (the same DesKey("secret") handed to an MD5 user and to a SHA-1 user), which the API allows."""
     from gufo.snmp.user import Aes128Key, DesKey, KeyType, Md5Key, Sha1Key, User
     kt = {"password": KeyType.Password, "master": KeyType.Master, "localized": KeyType.Localized}
     ak = pk = None
@@ -396,6 +398,8 @@ def make_user(cfg, engine_id):
         else:
             v = C.localize(a, C.password_to_key(a, cfg.auth_pw), engine_id)
         ak = cls(v, key_type=kt[cfg.auth_kt])
+        if key_cache is not None and cfg.auth_kt == "password":
+            ak = key_cache.setdefault(("auth", cls.__name__, bytes(v)), ak)
     if cfg.priv:
         cls = DesKey if cfg.priv == "des" else Aes128Key
         if cfg.priv_raw is not None:
@@ -407,6 +411,8 @@ def make_user(cfg, engine_id):
         else:
             v = C.localize(a, C.password_to_key(a, cfg.priv_pw), engine_id)
         pk = cls(v, key_type=kt[cfg.priv_kt])
+        if key_cache is not None and cfg.priv_kt == "password":
+            pk = key_cache.setdefault(("priv", cls.__name__, bytes(v)), pk)
     return User(cfg.user, auth_key=ak, priv_key=pk)
 
 
